@@ -14,7 +14,9 @@ use prqlc::sql::Dialect;
 use rusqlite::Connection;
 use serde_json::json;
 
-const ALPHA: &[char] = &['a', 'A', '1', '_', ' ', '"', '\'', '.', '$', '-', 'é', '\\'];
+// (the last two: a combining acute accent — `a` + U+0301 is the un-normalised spelling of `á` — and the KELVIN SIGN,
+// whose normalised form is the letter K: a name is a sequence of code points, not of normalised text)
+const ALPHA: &[char] = &['a', 'A', '1', '_', ' ', '"', '\'', '.', '$', '-', 'é', '\\', '\u{301}', '\u{212a}'];
 const GENERATED: &[&str] = &["table_0", "table_1", "table_2", "table_3", "_expr_0", "_expr_1", "_expr_2", "_expr_3", "table_00", "_expr_", "table_"];
 const PRQL_WORDS: &[&str] = &["let", "into", "case", "prql", "type", "module", "internal", "func", "import", "enum", "null", "true", "false", "this", "that", "from", "select", "derive", "filter", "take", "sort", "join", "group", "aggregate", "window", "std", "db", "count", "sum", "min", "max", "average", "rank"];
 
